@@ -52,11 +52,14 @@ def _pyrex():
 
 
 class _Noise:
+    """Noise master stub.  The basis of tag t has 2..5 components: amplitude[0] = t (the tag), an
+    exactly-zero amplitude, repeated equal amplitudes, negative and zero phases; tag 0 = a master
+    with an EMPTY basis (as opposed to no master at all, which also reads back empty)."""
     def __init__(self, tag):
-        n = 1 + tag % 3
+        n = (2 + tag % 4) if tag else 0
         self.freqs = np.arange(n, dtype=float) + 1.0
-        self.amps = np.array([float(tag)] + [0.5] * (n - 1))
-        self.phases = np.arange(n, dtype=float) * 0.25
+        self.amps = np.array(([float(tag), 0.0, 0.5, 0.5, 0.0])[:n])
+        self.phases = np.array(([-0.25, 0.0, -1.5, 0.75, -0.0])[:n])
 
 
 class _BadWave:
@@ -111,8 +114,9 @@ def make_particle(tag, bad_meta=False):
                            interaction_type=("cc" if tag % 2 else "nc"))
     finally:
         np.random.set_state(state)
-    p.survival_weight = 1.0 / (1 + tag % 4)
-    p.interaction_weight = 0.5 + (tag % 3)
+    # weights from {0.0, denormal-tiny, 0.125, 1.0, None (stored as 1)}: all 25 combinations over tags
+    p.survival_weight = [0.125, 0.0, 1.0, None, 5e-324][tag % 5]
+    p.interaction_weight = [1.0, 0.125, None, 0.0, 2.5e-310][(tag // 5) % 5]
     if bad_meta:
         p.energy = [[1.0, 2.0]]      # neither string nor scalar: _write_metadata raises ValueError
     return p
@@ -137,11 +141,21 @@ def build_add(add, det):
     fault = add.get("fault")
     parts = [make_particle(t, bad_meta=(fault == "meta" and k == len(add["parts"]) - 1))
              for k, t in enumerate(add["parts"])]
-    event = pyrex.Event(parts)
+    parents = add.get("parents")
+    if parents:
+        # event tree: roots first, then every child attached to an earlier particle, in list order
+        # (Event iterates roots, then children in the order they were added)
+        event = pyrex.Event([p for p, q in zip(parts, parents) if q < 0])
+        for p, q in zip(parts, parents):
+            if q >= 0:
+                event.add_children(parts[q], [p])
+    else:
+        event = pyrex.Event(parts)
     for i, ant in enumerate(det):
         ant._waves = [wave_signal(t) for t in add["waves"][i]]
         tag = add["noise"][i]
-        ant._noise_master = _Noise(tag) if tag else None
+        # tag 0: no noise master (even antennas) or a master with an empty basis (odd antennas)
+        ant._noise_master = _Noise(tag) if (tag or i % 2) else None
     if fault == "wave":
         det[-1]._waves = list(det[-1]._waves) + [_BadWave()]
     if fault == "noise":
@@ -424,7 +438,9 @@ def observe_event(ev, reg=None, deep=True):
                           (np.array_equal(nb[a][0], ref.freqs) and np.array_equal(nb[a][1], ref.amps)
                            and np.array_equal(nb[a][2], ref.phases)))
                     if not ok:
-                        bad = "noise basis of antenna %d inconsistent with tag %d" % (a, tag)
+                        bad = ("noise basis of antenna %d (tag %d) reads freqs/amps/phases %s, the antenna published %s"
+                               % (a, tag, [list(map(float, nb[a][k])) for k in range(3)],
+                                  [] if ref is None else [list(ref.freqs), list(ref.amps), list(ref.phases)]))
             out.append("BAD:" + bad if bad else [row])
     except Exception as e:
         out.append("NA" if _na(e) else "CRASH:" + type(e).__name__)
@@ -584,19 +600,25 @@ def run_query(q, paths, deep=False, readers=None):
                         res.append("stop")
                         break
                     parts = []
+                    note = ""
                     for p in ev:
                         tag = int(p.energy)
                         ref = make_particle(tag)
-                        ok = (p.id == ref.id and list(p.vertex) == list(ref.vertex) and
-                              list(p.direction) == list(ref.direction) and p.energy == ref.energy and
-                              p.interaction.kind == ref.interaction.kind and
-                              p.interaction.inelasticity == ref.interaction.inelasticity and
-                              p.interaction.em_frac == ref.interaction.em_frac and
-                              p.interaction.had_frac == ref.interaction.had_frac and
-                              p.survival_weight == ref.survival_weight and
-                              p.interaction_weight == ref.interaction_weight and p.weight == ref.weight)
-                        parts.append(tag if ok else -tag)
-                    res.append([parts, int(g.count)])
+                        stored = ref._metadata          # what the writer stored (None weights are stored as 1)
+                        checks = [("id", p.id, ref.id), ("vertex", list(p.vertex), list(ref.vertex)),
+                                  ("direction", list(p.direction), list(ref.direction)), ("energy", p.energy, ref.energy),
+                                  ("interaction.kind", p.interaction.kind, ref.interaction.kind),
+                                  ("interaction.inelasticity", p.interaction.inelasticity, ref.interaction.inelasticity),
+                                  ("interaction.em_frac", p.interaction.em_frac, ref.interaction.em_frac),
+                                  ("interaction.had_frac", p.interaction.had_frac, ref.interaction.had_frac),
+                                  ("survival_weight", p.survival_weight, stored["survival_weight"]),
+                                  ("interaction_weight", p.interaction_weight, stored["interaction_weight"]),
+                                  ("weight", p.weight, stored["weight"])]
+                        bad = [(n, got, want) for n, got, want in checks if got is None or not (got == want)]
+                        if bad and not note:
+                            note = "replayed particle %d: %s is %r, stored %r" % (tag, bad[0][0], bad[0][1], bad[0][2])
+                        parts.append(-tag if bad else tag)
+                    res.append([parts, int(g.count), note])
             finally:
                 try:
                     g._file.close()
@@ -1035,6 +1057,13 @@ def gen_add(rng, det, tags, p_bad=0.25, maxp=3, maxw=3, p_trig=0.6):
     HDF5Writer.add raise at some stage."""
     nparts = rng.choice([1, 1, 1, 2, 2, 3, maxp]) if rng.random() > 0.03 else 0
     a = {"parts": [tags.next() for _ in range(nparts)]}
+    if nparts and rng.random() < 0.35:
+        # secondaries: 1-4 children over 1-3 levels below any of the (possibly several) roots
+        parents = [-1] * nparts
+        for _ in range(rng.choice([1, 2, 3, 4])):
+            a["parts"].append(tags.next())
+            parents.append(rng.randrange(len(parents)) if rng.random() < 0.6 else len(parents) - 1)
+        a["parents"] = parents
     a["waves"] = [[tags.next() for _ in range(rng.choice([0, 1, 1, 2, maxw]))] for _ in range(det)]
     a["rays"] = [[tags.next() for _ in range(rng.choice([0, 1, 1, 2, maxw]))] for _ in range(det)]
     a["pols"] = "ok"
@@ -1268,6 +1297,9 @@ def oracle_query(q, got, recs, fcs):
         if items[-1:] != ["stop"]:
             return "FileGenerator does not stop after the last stored event"
         tags = [it[0] for it in items[:-1]]
+        notes = [it[2] for it in items[:-1] if len(it) > 2 and it[2]]
+        if notes:
+            return "FileGenerator does not replay the stored particle: " + notes[0]
         if tags != want:
             return "FileGenerator replays %s but the files hold %s" % (json.dumps(tags)[:200], json.dumps(want)[:200])
         counts = [it[1] for it in items[:-1]]
